@@ -460,6 +460,13 @@ theorem boxed_scope_effect (base : Env) (g : Drg) (G ff : Nat) (a : Ast) (below 
     ∃ top', s' = below ++ [top'] :=
   topOnly_evalBoxed _ (topOnly_level_call base g G ff) a below top v s' h
 
+/-- Since the repair of the boxed context (`build_context_evaluator` pushes a context for its entries and pops it
+on both ways out, `mod.rs:293-324`) the stronger statement holds: any boxed expression, nested in any way,
+leaves the scope **exactly** as it found it — the entries of a boxed context are gone when it returns. -/
+theorem boxed_scope_preserved (base : Env) (g : Drg) (G ff : Nat) (a : Ast) (s : Scope)
+    (v : Value) (s' : Scope) (h : evalBoxed (level base g G ff).env a s = .ok (v, s')) : s' = s :=
+  pres_evalBoxed _ (topOnly_level_call base g G ff) a s v s' h
+
 /-- **Evaluating a decision is pure at the interface** (`decision.rs:150-207`): the logic runs in a scope made
 for this evaluation from one fresh context (`decision.rs:178`) and leaves exactly one context in it — nothing
 pushed is left, the context is not popped —, that scope is dropped, the input data are only read, and in the
@@ -544,13 +551,15 @@ def purityWitnessEnv : Env where
 def purityWitnessLogic : Ast :=
   Boxed.context [.contextEntry (.contextEntryKey "a") (.numeric "1" ""), .contextEntry (.contextEntryKey "b") (.name "a")]
 
--- Non-vacuity and tightness of `boxed_scope_effect`: a boxed context evaluated on the scope `[{z: null}, {x: null}]`
--- returns; the context below the top is untouched, and the top context has the two entries bound in it (so
--- "exactly as found" would be false of boxed contexts: the statement is the precise one).
+-- Non-vacuity of `boxed_scope_effect` / `boxed_scope_preserved`: a boxed context evaluated on the scope
+-- `[{z: null}, {x: null}]` returns its two entries, and the scope is as before — the context below the top is
+-- untouched and the top context still has its one entry (before the repair of `build_context_evaluator` the two
+-- entries of the boxed context were left bound in it: the top context had three entries).
 example :
     ∃ v top', evalBoxed purityWitnessEnv purityWitnessLogic ([[("z", .null)]] ++ [[("x", .null)]])
-      = .ok (v, [[("z", .null)]] ++ [top']) ∧ top'.length = 3 :=
-  ⟨_, _, rfl, rfl⟩
+      = .ok (v, [[("z", .null)]] ++ [top']) ∧ top' = [("x", .null)] ∧
+        v = .ctx [("a", .num ⟨false, 1, 0⟩), ("b", .num ⟨false, 1, 0⟩)] :=
+  ⟨_, _, rfl, rfl, rfl⟩
 
 -- Non-vacuity of `drg_eval_pure` / `drg_eval_repeatable`: a decision with that logic, evaluated with an output
 -- context that already holds entries, answers with its variable and leaves the other entry alone.
